@@ -186,7 +186,11 @@ def edit_in_place(pbc, rng, shot):
         edits += [lambda: setattr(rng.choice(ws), 'velocity', U.MPH(rng.choice([0.0, rng.uniform(0, 30)]))),
                   lambda: setattr(rng.choice(ws), 'direction_from', U.Degree(rng.choice([0.0, 90.0, 180.0, 270.0, rng.uniform(-180, 360)]))),
                   lambda: [setattr(w, 'direction_from', U.Radian(-w.direction_from.raw_value)) for w in ws],   # mirror the whole list
-                  lambda: [setattr(w, 'velocity', U.MPS(0)) for w in ws]]
+                  lambda: [setattr(w, 'velocity', U.MPS(0)) for w in ws],
+                  # the extent of a segment edited in place: may change the ORDER in which the segments act (no wind object added or removed)
+                  lambda: setattr(rng.choice(ws), 'until_distance', U.Foot(rng.choice([50.0, 400.0, rng.uniform(100, 3000)]))),
+                  lambda: (len(ws) >= 2) and [setattr(a, 'until_distance', ub) or setattr(b, 'until_distance', ua)
+                                             for a, b, ua, ub in [(ws[0], ws[-1], ws[0].until_distance, ws[-1].until_distance)]]]
     edits += [lambda: setattr(shot, 'look_angle', U.Degree(rng.choice([0.0, rng.uniform(-30, 30)]))),
               lambda: setattr(shot, 'relative_angle', U.Mil(rng.uniform(-1, 3))),
               lambda: setattr(shot, 'cant_angle', U.Degree(rng.choice([0.0, rng.uniform(-45, 45)]))),
